@@ -138,6 +138,9 @@ def run(rep):
         return
     replay_histories(rep, hists)
     random_trace(rep, 150 if quick else 2000)
+    # the configuration tables as a model (spec/Config.tla): reported in the evidence, gating nothing here
+    import lint
+    lint.report(rep, (), "config")
 
 
 def replay_histories(rep, hists):
